@@ -67,6 +67,10 @@ def _cost(c):
         return ps.LinearFunction(slope=c["slope"], intercept=c["intercept"])
     if k == "poly":
         return ps.PolynomialFunction(coefficients=list(c["coefficients"]))
+    if k == "general":
+        # a user-supplied python callable computing the same values as the linear function c["as"]
+        a, i = c["as"]["slope"], c["as"]["intercept"]
+        return ps.GeneralFunction(function=lambda x, a=a, i=i: a * x + i)
     raise ValueError(k)
 
 
